@@ -67,6 +67,11 @@ def make_profiles(ctx, binpath):
     # many small packets (30 x ~70 bytes): run against a broker with max_packet_size 512 (PACK_MAXPKT), where every MQTT
     # packet fits but WebSocket messages of 1024..4096 bytes carry several of them
     ps.append(prof("pack", pubs=[(1, 40 + (i * 7) % 23) for i in range(30)]))
+    # the LAST thing written to the client is a delivery of exactly 1024 / 2048 bytes (the size of the write buffer and twice
+    # that; topic s/NNNNNNN: 14 bytes of header + payload, 15 with the MQTT 5 property length), nothing follows it
+    ps += [prof("wlast1024", pubs=[(1, 40), (0, 1010)], ping=False, no_disc=True),
+           prof("wlast2048", pubs=[(0, 2034)], ping=False, no_disc=True),
+           prof("wlast1024v5", ver=5, pubs=[(0, 1009)], ping=False, no_disc=True)]
     probe = prof("min1025", sub=False, pubs=[(1, 500)], ping=False, no_disc=True)
     _, g = describe(binpath, [probe], ctx.tmp("wsprobe"))
     ps.append(prof("min1025", sub=False, pubs=[(1, 500 + 1025 - g["min1025"]["n"])], ping=False, no_disc=True))
@@ -125,6 +130,8 @@ def plan(ctx, geo):
     jobs.append(Job("mini", "BoundaryFams \\cup Merged(BndAlls \\cup Singles) \\cup UniformFams(%s, %s) \\cup Merged(UniformFams({1, 7}, {})) "
                             "\\cup Empties({1, 3}) \\cup TextFams \\cup TextEmptyFams \\cup {KCuts(%d), %s}" % (
                                 tla_intset(small), tla_pairs(phases(small, 3)), 1 if q else 2, wins)))
+    for w in ("wlast1024", "wlast2048", "wlast1024v5"):
+        jobs.append(Job(w, "Singles \\cup UniformFams({1, 1024}, {})"))
     # min1025: CONNECT + PUBLISH = 1025 bytes: every single cut (and none)
     jobs.append(Job("min1025", "{KCuts(1)} \\cup UniformFams({1, 2, 512, 1023, 1024}, {})"))
     # the big streams
